@@ -1,9 +1,9 @@
 #!/bin/bash
 # usage: seed_all.sh <Cxx> "<labels>" [check ids...]  -- verify + copy + detect the seeds of a finished agent worktree /tmp/wt_<Cxx>
 p=$1; labels=$2; shift; shift; checks=${@:-$p}
-for x in $labels; do
-  [ -d /tmp/wt_$p/seeded_out/$x ] || { echo "no seed $p-$x"; continue; }
-  echo "== verify $p-$x: $(/verif/tools/seed_verify.sh /tmp/wt_$p $x 2>&1 | head -1)"
-  d=/verif/seeded/$p-$x; mkdir -p $d; cp /tmp/wt_$p/seeded_out/$x/* $d/ 2>/dev/null; rm -f $d/demo
+for x in $labels; do wtp=${WT_PREFIX:-/tmp/wt_}
+  [ -d ${wtp}$p/seeded_out/$x ] || { echo "no seed $p-$x"; continue; }
+  echo "== verify $p-$x: $(/verif/tools/seed_verify.sh ${wtp}$p $x 2>&1 | head -1)"
+  d=/verif/seeded/$p-$x; mkdir -p $d; cp ${wtp}$p/seeded_out/$x/* $d/ 2>/dev/null; rm -f $d/demo
   echo "-- detect $p-$x"; /verif/tools/seed_detect.sh $d $checks 2>&1 | tail -7
 done
